@@ -102,7 +102,7 @@ Ltac msgrec_of_to nested :=
 
 (* typedness is shown by rewriting with these, one field at a time, never by unfolding the
    conversion of a nested struct *)
-Lemma tf_nil : typed_fields_with typed [] [] = true. Proof. reflexivity. Qed.
+Lemma tf_nil : typed_fields_with typed (@nil (string * string * kind * bool)) [] = true. Proof. reflexivity. Qed.
 Lemma tf_cons g j k o fs v vs :
   typed_fields_with typed ((g, j, k, o) :: fs) (v :: vs) = typed k v && typed_fields_with typed fs vs.
 Proof. reflexivity. Qed.
